@@ -9,10 +9,13 @@ MT=${MT:-/tmp/mt}
 mkdir -p $MT
 rsync -a --delete --exclude .git --exclude .build --exclude replay --exclude evidence /verif/ $MT/verif/
 if [ ! -d $MT/repo ]; then git -C /repo worktree add -q --detach $MT/repo HEAD || exit 3; fi
+git -C $MT/repo reset -q --hard; git -C $MT/repo clean -fdq
 git -C $MT/repo checkout -q --detach $(git -C /repo rev-parse HEAD) 2>/dev/null
-git -C $MT/repo checkout -q -- . ; git -C $MT/repo clean -fdq
 if ! git -C $MT/repo apply "$P" 2>/dev/null; then
-  git -C $MT/repo apply --3way "$P" >/dev/null 2>&1 || { echo "MUTANT $P: patch does not apply"; exit 3; }
+  if ! git -C $MT/repo apply --3way "$P" >/dev/null 2>&1 || [ -n "$(git -C $MT/repo diff --name-only --diff-filter=U)" ]; then
+    git -C $MT/repo reset -q --hard
+    echo "MUTANT $P: patch does not apply"; exit 3
+  fi
   git -C $MT/repo reset -q
 fi
 (cd $MT/repo && go build ./... ) || { echo "MUTANT $P: does not build"; exit 3; }
@@ -20,5 +23,5 @@ cd $MT/verif && VERIF_REPO=$MT/repo ./check $ID $TIER > $MT/out.$ID.txt 2>&1
 rc=$?
 echo "MUTANT $(basename $(dirname $P)) check=$ID tier=$TIER exit=$rc: $(grep -c '^VIOLATION' $MT/out.$ID.txt) VIOLATION lines; $(grep -m1 'kind=' $MT/out.$ID.txt | cut -c1-220)"
 [ $rc -eq 2 ] && tail -2 $MT/out.$ID.txt
-git -C $MT/repo checkout -q -- . ; git -C $MT/repo clean -fdq
+git -C $MT/repo reset -q --hard; git -C $MT/repo clean -fdq
 exit $rc
